@@ -3,7 +3,18 @@
 Numbers travel as exact rationals `p` or `p/q`; a float result is rendered through
 `float.as_integer_ratio`, so nothing is ever compared as decimal text.  Arrays are
 built from the line alone (dtype int64 / float64 / complex128 chosen from the
-data), the input array is checked to be unchanged after every call."""
+data), the input array is checked to be unchanged after every call.
+
+A trailing token `layout=A,B,…` chooses how the *same logical array* is held in memory
+(the model ignores the token):
+  C  C-contiguous (default)          F  Fortran-contiguous (np.asfortranarray)
+  T  transposed view of the transpose (`A.T.copy().T`, not owning its data)
+  S  strided view `big[::2, ::2]` / `big[::2]` of a larger array
+  O  offset window `big[1:1+r, 2:2+c]` of a larger array (contiguous rows only)
+  N  negative strides (`rev[::-1, ::-1]`)
+  R  read-only (`flags.writeable = False`)
+  E  non-native byte order (big-endian dtype)
+Every variant is asserted to be element-wise equal to the logical array."""
 from __future__ import annotations
 from fractions import Fraction
 import numpy as np
@@ -52,7 +63,44 @@ def to_float(f: Fraction) -> float:
 def parse_shape(s: str):
     return () if s == "-" else tuple(int(x) for x in s.split("x"))
 
-def mk_array(sh: str, dt: str) -> np.ndarray:
+def apply_layout(arr: np.ndarray, layout: str) -> np.ndarray:
+    """the same logical array in another memory layout"""
+    logical = arr.copy()
+    rng_fill = 7      # foreign values around the window, so that reading outside it is visible
+    for tag in [x for x in layout.split(",") if x and x != "C"]:
+        if tag == "F":
+            if arr.ndim >= 1:          # (asfortranarray would promote a 0-d array to shape (1,))
+                arr = np.asfortranarray(arr)
+        elif tag == "T":
+            if arr.ndim >= 2:
+                arr = np.ascontiguousarray(arr.T).T
+        elif tag == "S":
+            if arr.ndim >= 1:
+                big = np.full(tuple(2 * d + 1 for d in arr.shape), rng_fill, dtype=arr.dtype)
+                sl = tuple(slice(0, 2 * d, 2) for d in arr.shape)
+                big[sl] = arr
+                arr = big[sl]
+        elif tag == "O":
+            if arr.ndim >= 1:
+                big = np.full(tuple(d + 3 for d in arr.shape), rng_fill, dtype=arr.dtype)
+                sl = tuple(slice(1 + k, 1 + k + d) for k, d in enumerate(arr.shape))
+                big[sl] = arr
+                arr = big[sl]
+        elif tag == "N":
+            if arr.ndim >= 1:
+                rev = tuple(slice(None, None, -1) for _ in arr.shape)
+                arr = np.ascontiguousarray(arr[rev])[rev]
+        elif tag == "R":
+            arr = arr.view()
+            arr.flags.writeable = False
+        elif tag == "E":
+            arr = arr.astype(arr.dtype.newbyteorder(">"))
+        else:
+            raise AssertionError("harness: unknown layout " + tag)
+    assert arr.shape == logical.shape and np.array_equal(arr, logical), "harness: layout changed the logical array"
+    return arr
+
+def mk_array(sh: str, dt: str, layout: str = "C") -> np.ndarray:
     ent = parse_entries(dt)
     shape = parse_shape(sh)
     if all(b == 0 for _, b in ent):
@@ -62,7 +110,7 @@ def mk_array(sh: str, dt: str) -> np.ndarray:
             arr = np.array([to_float(a) for a, _ in ent], dtype=np.float64)
     else:
         arr = np.array([complex(to_float(a), to_float(b)) for a, b in ent], dtype=np.complex128)
-    return arr.reshape(shape)
+    return apply_layout(arr.reshape(shape), layout)
 
 def show_vec(v) -> str:
     v = np.asarray(v).reshape(-1)
@@ -81,26 +129,30 @@ def mkp(s: str) -> PauliString:
 
 def _unchanged(f, arr):
     keep = arr.copy()
+    base = arr.base if isinstance(arr.base, np.ndarray) else None
+    keep_base = base.copy() if base is not None else None
+    strides = arr.strides
     r = f(arr)
-    if arr.shape != keep.shape or arr.dtype != keep.dtype or not np.array_equal(arr, keep):
+    if (arr.shape != keep.shape or arr.dtype != keep.dtype or arr.strides != strides or not np.array_equal(arr, keep)
+            or (base is not None and not np.array_equal(base, keep_base))):
         return "!INPUT-MUTATED"
     return r
 
 # ---------------------------------------------------------------- commands
 
-def decomp(sh, dt, diag=False):
-    a = mk_array(sh, dt)
+def decomp(sh, dt, diag=False, layout="C"):
+    a = mk_array(sh, dt, layout)
     f = matrix_decomposition_diagonal if diag else matrix_decomposition
     return guard(lambda: _unchanged(lambda x: show_vec(f(x)), a))
 
-def weight(p, dt):
+def weight(p, dt, layout="C"):
     ent = parse_entries(dt)
-    b = np.array([complex(to_float(a), to_float(c)) for a, c in ent], dtype=np.complex128)
+    b = apply_layout(np.array([complex(to_float(a), to_float(c)) for a, c in ent], dtype=np.complex128), layout)
     P = mkp(p)
     return guard(lambda: _unchanged(lambda x: show_c(P.get_weight_in_matrix(x)), b))
 
-def dlook(ps, sh, dt, diag=False):
-    a = mk_array(sh, dt)
+def dlook(ps, sh, dt, diag=False, layout="C"):
+    a = mk_array(sh, dt, layout)
     f = matrix_decomposition_diagonal if diag else matrix_decomposition
     try:
         w = f(a)
@@ -115,18 +167,20 @@ def pweights(n, ip):
         return ",".join(str(int(x)) for x in w) if len(w) else "-"
     return guard(run)
 
-def infl(sh, dt, ws):
-    a = mk_array(sh, dt)
+def infl(sh, dt, ws, layout="C"):
+    a = mk_array(sh, dt, layout)
     w = np.array([int(x) for x in ws.split(",")] if ws != "-" else [], dtype=int)
+    if "S" in layout.split(","):        # the weight table as a strided view as well
+        w = apply_layout(w, "S")
     return guard(lambda: _unchanged(lambda x: show_float(average_pauli_weight(x, w)), a))
 
-def probs(sh, dt):
-    a = mk_array(sh, dt)
+def probs(sh, dt, layout="C"):
+    a = mk_array(sh, dt, layout)
     return guard(lambda: ",".join(show_float(abs(z) ** 2) for z in matrix_decomposition(a)))
 
-def stats(sh, dt):
+def stats(sh, dt, layout="C"):
     """entropy and influence (with the package's own weight table) as exact renderings of the floats"""
-    a = mk_array(sh, dt)
+    a = mk_array(sh, dt, layout)
     def run():
         n = int(a.shape[0]).bit_length() - 1 if a.ndim >= 1 else 0
         h = quantum_fourier_entropy(a)
@@ -134,15 +188,22 @@ def stats(sh, dt):
         return f"H={show_float(h)} I={show_float(i)}"
     return guard(lambda: _unchanged(lambda x: run(), a))
 
-def handle(line: str) -> str:
+def split_layout(line: str):
+    """-> (line without layout tokens, layout string)"""
     t = line.split(" ")
-    if t[0] == "decomp": return decomp(t[1], t[2])
-    if t[0] == "decompd": return decomp(t[1], t[2], diag=True)
-    if t[0] == "weight": return weight(t[1], t[2])
-    if t[0] == "dlook": return dlook(t[1], t[2], t[3])
-    if t[0] == "dlookd": return dlook(t[1], t[2], t[3], diag=True)
+    lay = [x[len("layout="):] for x in t if x.startswith("layout=")]
+    return " ".join(x for x in t if not x.startswith("layout=")), (",".join(lay) or "C")
+
+def handle(line: str) -> str:
+    base, lay = split_layout(line)
+    t = base.split(" ")
+    if t[0] == "decomp": return decomp(t[1], t[2], layout=lay)
+    if t[0] == "decompd": return decomp(t[1], t[2], diag=True, layout=lay)
+    if t[0] == "weight": return weight(t[1], t[2], layout=lay)
+    if t[0] == "dlook": return dlook(t[1], t[2], t[3], layout=lay)
+    if t[0] == "dlookd": return dlook(t[1], t[2], t[3], diag=True, layout=lay)
     if t[0] == "pweights": return pweights(t[1], t[2])
-    if t[0] == "infl": return infl(t[1], t[2], t[3])
-    if t[0] == "probs": return probs(t[1], t[2])
-    if t[0] == "stats": return stats(t[1], t[2])
+    if t[0] == "infl": return infl(t[1], t[2], t[3], layout=lay)
+    if t[0] == "probs": return probs(t[1], t[2], layout=lay)
+    if t[0] == "stats": return stats(t[1], t[2], layout=lay)
     return "bad-op"
